@@ -194,7 +194,7 @@ class LogOps(RealOps):
         if _posinf(x) or (isinstance(x, float) and x != x):
             raise Unsupported("LOG mode: +inf / nan in the log domain")
         if isF(x):
-            return LogVal(x.elem(), Frac(1))
+            return LogVal(self.lower(x), Frac(1))
         return LogVal(x, Frac(1))
 
     def lower(self, x):
